@@ -39,7 +39,7 @@ def run(ck: vlib.Check):
     ck.rule = ("every file-writing entry point x destination {absent, existing file, existing EMPTY file, symlink to a file, same path as the source, "
                "a path through a symlinked directory and '..' whose textual collapse names another existing file, a name with glob characters, "
                "a name holding '*' or NUL in front of which another existing file sits (the C library stops reading there)} x "
-               "overwrite flag {default, False, True}, real files and the real StormLib, file hashes before/after; "
+               "overwrite flag {default, False, True} (the sound import with one, several and NO sounds to import), real files and the real StormLib, file hashes before/after; "
                "plus, for the refusing cases, every fault point before the guard. Exhaustive over this finite grid. "
                "Distinct = distinct (entry point, destination state, flag).")
     ck.regen(["iodefaults"])
@@ -58,8 +58,9 @@ def run(ck: vlib.Check):
                 continue
             for ow in ("default", False, True):
                 for ns in ((1,) if ck.tier == "quick" else (0, 1, 3)):
-                    jobs.append({"ep": ep, "overwrite": ow, "ns": ns, "na": 1 if ep == 4 else 0, "dst": dst,
-                                 "step": -1, "kind": 0})
+                    # the sound import is also run with NOTHING to import (an empty list is a legitimate request)
+                    for na in (((1, 0) if ck.tier == "quick" else (1, 0, 2)) if ep == 4 else (0,)):
+                        jobs.append({"ep": ep, "overwrite": ow, "ns": ns, "na": na, "dst": dst, "step": -1, "kind": 0})
     results = c16.run_jobs(jobs)
     ck.exhaustive = True
     mism, first = 0, None
